@@ -67,8 +67,8 @@ import tempfile
 import time
 
 
-def run_schedule(exe, argv, devs, env=None, timeout=120, workdir=None, keep_trace=False, policy=0):
-    """One execution of the harness under the given delay vector."""
+def run_schedule(exe, argv, devs, env=None, timeout=120, workdir=None, keep_trace=False, policy=0, stalls=()):
+    """One execution of the harness under the given delay vector (and stall points)."""
     workdir = workdir or os.path.join(vlib.BUILD, "work", "sched")
     os.makedirs(workdir, exist_ok=True)
     fd, tr = tempfile.mkstemp(prefix="tr", dir=workdir)
@@ -78,6 +78,7 @@ def run_schedule(exe, argv, devs, env=None, timeout=120, workdir=None, keep_trac
     en["VS_DELAYS"] = delays_str(devs)
     en["VS_TRACE"] = tr
     en["VS_POLICY"] = str(policy)
+    en["VS_STALL"] = ",".join(str(int(x)) for x in stalls)
     if env:
         en.update(env)
     t0 = time.time()
@@ -92,7 +93,7 @@ def run_schedule(exe, argv, devs, env=None, timeout=120, workdir=None, keep_trac
             os.unlink(tr)
         except OSError:
             pass
-    res = {"rc": rc, "timeout": to, "devs": devs, "pts": pts, "summary": summ, "wall": time.time() - t0,
+    res = {"rc": rc, "timeout": to, "devs": devs, "stalls": list(stalls), "policy": policy, "pts": pts, "summary": summ, "wall": time.time() - t0,
            "stderr": err[-4000:].decode("latin1")}
     line = out.decode("latin1").strip().split("\n")[-1] if out.strip() else ""
     try:
@@ -169,3 +170,39 @@ class Exploration:
                     return
                 self.completed_bound = d
                 buckets[d] = None
+
+
+def stall_sweep(exe, argv, on_result, deadline, env=None, timeout=120, policy=0, workers=None, stride=1):
+    """Every schedule with exactly one stall point: for each decision point p of the canonical schedule the thread running at p
+    is made arbitrarily slow from p on (VS_STALL=p).  Returns dict(executions, transitions, points, complete, trace_hashes)."""
+    base = run_schedule(exe, argv, [], env, timeout, policy=policy)
+    on_result(base)
+    npts = len(base["pts"])
+    st = {"executions": 1, "transitions": npts, "points": npts, "complete": True, "trace_hashes": set(), "stride": stride}
+    if base["rc"] != 0:
+        return st
+    todo = iter(range(0, npts, stride))
+    with concurrent.futures.ThreadPoolExecutor(workers or vlib.NCPU) as ex:
+        pending, exhausted = set(), False
+        while True:
+            while not exhausted and len(pending) < 2 * (workers or vlib.NCPU):
+                if time.time() > deadline:
+                    exhausted, st["complete"] = True, False
+                    break
+                try:
+                    p = next(todo)
+                except StopIteration:
+                    exhausted = True
+                    break
+                pending.add(ex.submit(run_schedule, exe, argv, [], env, timeout, None, False, policy, (p,)))
+            if not pending:
+                break
+            done, pending = concurrent.futures.wait(pending, return_when=concurrent.futures.FIRST_COMPLETED)
+            for f in done:
+                res = f.result()
+                st["executions"] += 1
+                st["transitions"] += len(res["pts"])
+                if res["summary"].get("trace_hash"):
+                    st["trace_hashes"].add(res["summary"]["trace_hash"])
+                on_result(res)
+    return st
